@@ -1386,6 +1386,23 @@ class _AlwaysSortable(object):
             return self.sortable_value() < other.sortable_value()
 
 
+def _printed_by_pretty_str(key):
+    """Whether dispatch would hand this str / bytes key to pretty_str:
+    a subclass with a printer registered nearer in its MRO is printed
+    by that printer, as it is at every other position."""
+    cls = type(key)
+    if cls is str or cls is bytes:
+        return True
+    is_registered(
+        cls,
+        check_superclasses=True,
+        check_deferred=True,
+        register_deferred=True
+    )
+    printer = pretty_dispatch.dispatch(cls)
+    return getattr(printer, 'args', None) == (pretty_str, )
+
+
 @register_pretty(dict)
 def pretty_dict(d, ctx, trailing_comment=None):
     constructor = type(d)
@@ -1426,7 +1443,7 @@ def pretty_dict(d, ctx, trailing_comment=None):
     for k in take(ctx.max_seq_len, sorted_keys):
         v = d[k]
 
-        if isinstance(k, (str, bytes)):
+        if isinstance(k, (str, bytes)) and _printed_by_pretty_str(k):
             kdoc = pretty_str(
                 k,
                 # not a nested call on purpose
